@@ -538,13 +538,549 @@ macro_rules! timer_harness {
 //   @stub  FnOnceQueue::push_box -> invoke the callback at once against the harness context
 //   @assume BTreeMap = /verif/harness/model/vmap.rs (capacity 3, total-order precondition asserted)
 
-// @verif prop=C07,C08,C09,C10 tier=quick timeout=600 mem=12 unwind=5 unwindset=::advance\.1$:2,::advance\.0$:3,::add\.0$:2,::add\.1$:1
+// @verif prop=C07,C08,C09,C10 tier=thorough timeout=1800 mem=12 unwind=5 unwindset=::advance\.1$:2,::advance\.0$:3,::add\.0$:2,::add\.1$:1
 // @enc Timers::add Timers::add_max Timers::del Timers::advance Timers::next_expiry Time::* WrapTime::* TimerKey::cmp
 // @sym uptime up in [0,40000 s]; expiry, two run instants: any instant in [up-100 s, up+30000 s] (any ns)
 // @bound 1 fixed timer; add, advance, advance; each advance <= 30100 s (single 0x7FFF s step); map model capacity 3
 // @stub FnOnceQueue::push_box -> callback invoked at once (queue is a sink here; FIFO is C01/C17)
 // @assume BTreeMap modelled by harness/model/vmap.rs; initial state = empty timer set at arbitrary uptime (constructed)
 timer_harness!(b_fixed_add_adv_adv, hist_add_adv_adv, Kind::Fixed, 40000, 100, 30000);
+
+
+// ------------------------------------------------------------------------------------------
+// Layer I: INDUCTIVE steps at tick level (unbounded histories)
+//
+// Pre-state: a Timers value *constructed* at an arbitrary tick N (any uptime, any position relative to the
+// 32-bit wrap of the cyclic time) holding ONE pending timer whose internal numbers satisfy the representation
+// invariant INV below, together with the ghost values of the reference model:
+//     E  = ceil(effective expiry)            (tick)
+//     S1 = floor(time the expiry was last set) + 1 tick
+// Every add_* establishes INV (base harnesses); every operation preserves it (step harnesses).  Hence INV holds
+// after any history, and the per-step assertions hold at every step of every history:
+//     C07t  a timer fires in an advance to N' only if E <= N'           (+ lemma a_time_no_early  => now >= expiry)
+//     C08t  if N' >= max(E, S1) the timer has fired                       (+ lemma a_time_monotone => one step past deadline)
+//     C09t  next_expiry() is the instant of the first key K, N < K <= max(E, S1)   (+ lemma a_time_rounding / a_tick_after)
+//     C10t  key operations answer `pending` and nothing else changes
+// INV(kind): N < C, C - N <= 0x7FFF s, C <= max(E, S1), S1 <= N + 1, sub-second fields valid,
+//            fixed: C == max(E, S1) and C - (S1 - 1) < 0x7FFF s;  var: slot.expiry == E, slot.curr == C,
+//            queue == {(C.wt(), slot)}.
+// ------------------------------------------------------------------------------------------
+
+const LONG: u64 = 0x7FFF << 16;
+
+fn valid_floor(t: u64) -> bool {
+    t < (1 << 50) && (t & 0xFFFF) <= 61035
+}
+fn valid_ceil(t: u64) -> bool {
+    t < (1 << 50) && (t & 0xFFFF) <= 61036
+}
+
+#[derive(Copy, Clone)]
+struct Ghost {
+    kind: Kind,
+    e: u64,  // ceil(effective expiry)
+    s1: u64, // floor(set time) + 1
+    c: u64,  // tick of the queue entry
+    slot: u32,
+    gnn: u32,
+}
+
+fn inv_numbers(n: u64, g: &Ghost) -> bool {
+    let dl = if g.e > g.s1 { g.e } else { g.s1 };
+    let base = valid_floor(n) && valid_ceil(g.e) && valid_ceil(g.c) && valid_ceil(g.s1) && g.s1 >= 1
+        && n < g.c && g.c - n <= LONG && g.c <= dl && g.s1 <= n + 1;
+    match g.kind {
+        Kind::Fixed => base && g.c == dl && g.c - (g.s1 - 1) < LONG && g.slot >= 0x8000_0000,
+        _ => base && g.slot == 0 && g.gnn != 0,
+    }
+}
+
+fn any_ghost(kind: Kind) -> (u64, Ghost) {
+    let n: u64 = kani::any();
+    let g = Ghost { kind, e: kani::any(), s1: kani::any(), c: kani::any(), slot: if kind == Kind::Fixed { kani::any() } else { 0 }, gnn: if kind == Kind::Fixed { 0 } else { kani::any() } };
+    kani::assume(inv_numbers(n, &g));
+    (n, g)
+}
+
+// Build the implementation state described by (n, g)
+fn build(n: u64, g: &Ghost, id: u8) -> World {
+    let mut w = World::new();
+    w.t.now = Time(n);
+    w.t.var = Vec::with_capacity(2);
+    match g.kind {
+        Kind::Fixed => {
+            w.t.seq = g.slot & 0x7FFF_FFFF;
+        }
+        Kind::Max => w.t.var.push(VarSlot { gnn: g.gnn, item: VarItem::Max(VarTimer { expiry: Time(g.e), curr: Time(g.c) }) }),
+        Kind::Min => w.t.var.push(VarSlot { gnn: g.gnn, item: VarItem::Min(VarTimer { expiry: Time(g.e), curr: Time(g.c) }) }),
+    }
+    let old = w.t.queue.insert(TimerKey::new(Time(g.c).wt(), g.slot), cb(id));
+    std::mem::forget(old);
+    w
+}
+
+// Read the single pending timer back out of the implementation state; None if nothing is pending
+fn read_back(w: &World, kind: Kind, e: u64, s1: u64) -> Option<Ghost> {
+    let first = w.t.queue.iter().next().map(|(k, _)| *k);
+    match first {
+        None => None,
+        Some(k) => {
+            let c = k.time.time(w.t.now).0;
+            let mut g = Ghost { kind, e, s1, c, slot: k.slot, gnn: 0 };
+            if k.slot < 0x8000_0000 {
+                let slot = &w.t.var[k.slot as usize];
+                g.gnn = slot.gnn;
+                match &slot.item {
+                    VarItem::Max(vt) => {
+                        assert!(kind == Kind::Max && vt.expiry.0 == e && vt.curr.0 == c, "INV: Max slot disagrees with queue/model");
+                    }
+                    VarItem::Min(vt) => {
+                        assert!(kind == Kind::Min && vt.expiry.0 == e && vt.curr.0 == c, "INV: Min slot disagrees with queue/model");
+                    }
+                    VarItem::Free(_) => assert!(false, "INV: queue entry points to a free slot"),
+                }
+            } else {
+                assert!(kind == Kind::Fixed, "INV: fixed queue entry for a var timer");
+            }
+            Some(g)
+        }
+    }
+}
+
+fn queue_len(w: &World) -> usize {
+    let mut it = w.t.queue.iter();
+    let a = it.next().is_some();
+    let b = it.next().is_some();
+    (a as usize) + (b as usize)
+}
+
+// C09t on the current state with one pending timer
+fn check_next_expiry(w: &World, g: Option<&Ghost>) {
+    let ne = w.t.next_expiry();
+    match g {
+        None => assert!(ne.is_none(), "C09: next_expiry must be None when nothing is pending"),
+        Some(g) => {
+            assert!(ne == Some(Time(g.c).instant(w.t0)), "C09: next_expiry is not the instant of the earliest entry");
+        }
+    }
+}
+
+fn tick_of_floor(w: &World, x: Off) -> u64 {
+    Time::new_floor(at(w.t0, x.0, x.1), w.t0).0
+}
+fn tick_of_ceil(w: &World, x: Off) -> u64 {
+    Time::new_ceil(at(w.t0, x.0, x.1), w.t0).0
+}
+
+// advance to an arbitrary instant within `max_ahead_secs` of the current tick (or earlier: then nothing may happen)
+fn any_target(n: u64, max_ahead_secs: u64) -> Off {
+    let x = any_off(0, (1 << 34) + max_ahead_secs);
+    kani::assume(x.0 <= (n >> 16) + max_ahead_secs);
+    x
+}
+
+fn ind_advance(kind: Kind, max_ahead_secs: u64) {
+    let (n, g) = any_ghost(kind);
+    kani::assume(n < (1 << 50) - (0x30000 << 16));
+    let mut w = build(n, &g, 0);
+    let x = any_target(n, max_ahead_secs);
+    let nf = tick_of_floor(&w, x);
+    let n2 = if nf > n { nf } else { n };
+    w.c.in_run = true;
+    w.t.advance(w.inst(x), &mut w.q);
+    w.q.execute(&mut w.c);
+    w.c.in_run = false;
+    assert!(w.t.now.0 == n2, "timer clock = max(old, floor(target))");
+    let fired = w.c.cnt[0];
+    assert!(fired <= 1, "C08: fired more than once");
+    let dl = if g.e > g.s1 { g.e } else { g.s1 };
+    if fired == 1 {
+        assert!(g.e <= n2, "C07: fired before its effective expiry");
+        assert!(n2 > n, "C15/C07: fired although time did not advance");
+        assert!(read_back(&w, kind, g.e, g.s1).is_none() && queue_len(&w) == 0, "C08: fired timer still queued");
+        if kind != Kind::Fixed {
+            assert!(matches!(w.t.var[0].item, VarItem::Free(_)) && w.t.var[0].gnn != g.gnn && w.t.var[0].gnn != 0 && w.t.var_free == Some(0),
+                    "C10: slot of a fired timer not released with a new generation");
+        }
+        check_next_expiry(&w, None);
+    } else {
+        assert!(n2 < dl, "C08: not fired although the clock reached its deadline tick");
+        let g2 = read_back(&w, kind, g.e, g.s1);
+        assert!(g2.is_some() && queue_len(&w) == 1, "C08: pending timer lost from the queue");
+        let g2 = g2.unwrap();
+        assert!(g2.slot == g.slot && g2.gnn == g.gnn, "C10: key of a pending timer changed");
+        assert!(inv_numbers(n2, &g2), "INV not preserved by advance");
+        if kind != Kind::Min {
+            assert!(g2.c >= g.c, "C09: queue entry moved backwards");
+        }
+        check_next_expiry(&w, Some(&g2));
+    }
+    kani::cover!(fired == 1, "fired");
+    kani::cover!(fired == 0 && n2 > n, "advanced without firing");
+    kani::cover!((fired == 0 && n2 > n && g.c <= n2) || kind == Kind::Fixed, "re-queued");
+    kani::cover!(n2 == n, "non-advancing call");
+    kani::cover!(n2 - n > LONG, "multi-step jump");
+    kani::cover!((n as u32) > (n2 as u32) && n2 > n, "crossed the 32-bit wrap of cyclic time");
+    std::mem::forget(w);
+}
+
+// base: add_* from the empty state at an arbitrary tick establishes INV and the C09 bound; no callback inside add
+fn ind_base_add(kind: Kind) {
+    let n: u64 = kani::any();
+    kani::assume(valid_floor(n) && n < (1 << 49));
+    let mut w = World::new();
+    w.t.now = Time(n);
+    w.t.var = Vec::with_capacity(2);
+    w.t.seq = kani::any();
+    let e_off = any_off(0, 1 << 33);
+    let e = tick_of_ceil(&w, e_off);
+    let (key, _m) = add_timer(&mut w, kind, e_off, 0);
+    assert!(!w.c.outside && w.c.cnt[0] == 0, "C07: callback ran inside add");
+    let s1 = n + 1;
+    // a fixed timer 0x7FFF s or more ahead is carried by a Max slot
+    let long = kind == Kind::Fixed && (if e > s1 { e } else { s1 }) >= n + LONG;
+    let k2 = if long { Kind::Max } else { kind };
+    let g = read_back(&w, k2, e, s1);
+    assert!(g.is_some() && queue_len(&w) == 1, "add did not queue the timer");
+    let g = g.unwrap();
+    assert!(inv_numbers(n, &g), "INV not established by add");
+    match key {
+        Key::F(k) => assert!(k.slot == g.slot && (if long { k.gen_or_time == g.gnn } else { k.gen_or_time == g.c as u32 }), "C10: key does not name the queued timer"),
+        Key::Mx(k) => assert!(k.slot == g.slot && k.gnn == g.gnn && w.t.max_is_active(k), "C10: key does not name the queued timer"),
+        Key::Mn(k) => assert!(k.slot == g.slot && k.gnn == g.gnn && w.t.min_is_active(k), "C10: key does not name the queued timer"),
+    }
+    check_next_expiry(&w, Some(&g));
+    kani::cover!(long || kind != Kind::Fixed, "long fixed timer (Max slot)");
+    kani::cover!(e <= n, "expiry in the past");
+    kani::cover!(e > n + 1 && !long, "expiry in the future");
+    std::mem::forget(w);
+}
+
+// step: update of a Max / Min timer
+fn ind_update(kind: Kind) {
+    let (n, g) = any_ghost(kind);
+    let mut w = build(n, &g, 0);
+    let e_off = any_off(0, 1 << 33);
+    let e_new = tick_of_ceil(&w, e_off);
+    let i = w.inst(e_off);
+    let (r, e2, changed) = match kind {
+        Kind::Max => (w.t.mod_max(MaxTimerKey { slot: 0, gnn: g.gnn }, i), if e_new > g.e { e_new } else { g.e }, e_new > g.e),
+        _ => (w.t.mod_min(MinTimerKey { slot: 0, gnn: g.gnn }, i), if e_new < g.e { e_new } else { g.e }, e_new < g.e),
+    };
+    assert!(r, "C10: update of a pending timer must return true");
+    assert!(!w.c.outside && w.c.cnt[0] == 0, "C07: callback ran inside update");
+    let s2 = if changed { n + 1 } else { g.s1 };
+    let g2 = read_back(&w, kind, e2, s2);
+    assert!(g2.is_some() && queue_len(&w) == 1, "C08: update lost the timer");
+    let g2 = g2.unwrap();
+    assert!(g2.slot == 0 && g2.gnn == g.gnn, "C10: key changed by update");
+    assert!(inv_numbers(n, &g2), "INV not preserved by update");
+    assert!(w.t.now.0 == n);
+    check_next_expiry(&w, Some(&g2));
+    kani::cover!((changed && g2.c != g.c) || kind != Kind::Min, "update re-queued the timer");
+    kani::cover!(changed && g2.c == g.c, "update absorbed");
+    kani::cover!(!changed, "update in the ignored direction");
+    kani::cover!(e_new <= n, "update to the past");
+    std::mem::forget(w);
+}
+
+// step: delete
+fn ind_delete(kind: Kind) {
+    let (n, g) = any_ghost(kind);
+    let mut w = build(n, &g, 0);
+    let r = match kind {
+        Kind::Fixed => w.t.del(FixedTimerKey { slot: g.slot, gen_or_time: g.c as u32 }),
+        Kind::Max => {
+            if kani::any() {
+                w.t.del_max(MaxTimerKey { slot: 0, gnn: g.gnn })
+            } else {
+                w.t.del(FixedTimerKey { slot: 0, gen_or_time: g.gnn }) // long fixed timer
+            }
+        }
+        Kind::Min => w.t.del_min(MinTimerKey { slot: 0, gnn: g.gnn }),
+    };
+    assert!(r, "C10: delete of a pending timer must return true");
+    assert!(queue_len(&w) == 0, "C10: deleted timer left in the queue");
+    assert!(w.c.cnt[0] == 0 && !w.c.outside, "C07: callback ran inside delete");
+    check_next_expiry(&w, None);
+    if kind != Kind::Fixed {
+        assert!(matches!(w.t.var[0].item, VarItem::Free(_)) && w.t.var[0].gnn != g.gnn && w.t.var[0].gnn != 0 && w.t.var_free == Some(0),
+                "C10: slot not released with a new generation");
+        // the same key again, and every query, now answer false
+        assert!(!w.t.del_max(MaxTimerKey { slot: 0, gnn: g.gnn }) && !w.t.del_min(MinTimerKey { slot: 0, gnn: g.gnn }));
+        assert!(!w.t.max_is_active(MaxTimerKey { slot: 0, gnn: g.gnn }) && !w.t.min_is_active(MinTimerKey { slot: 0, gnn: g.gnn }));
+        assert!(!w.t.mod_max(MaxTimerKey { slot: 0, gnn: g.gnn }, w.t0) && !w.t.mod_min(MinTimerKey { slot: 0, gnn: g.gnn }, w.t0));
+    } else {
+        assert!(!w.t.del(FixedTimerKey { slot: g.slot, gen_or_time: g.c as u32 }));
+    }
+    kani::cover!(true, "deleted");
+    std::mem::forget(w);
+}
+
+// step: any operation with a key that does NOT name the pending timer (stale generation, other slot,
+// Default key, key of another kind) is false and changes nothing
+fn ind_stale_key(kind: Kind) {
+    let (n, g) = any_ghost(kind);
+    let mut w = build(n, &g, 0);
+    let slot: u32 = kani::any();
+    let gen: u32 = kani::any();
+    let names_it = match kind {
+        Kind::Fixed => slot == g.slot && gen == g.c as u32,
+        _ => slot == 0 && gen == g.gnn,
+    };
+    kani::assume(!names_it);
+    kani::assume(slot < 2 || slot >= 0x8000_0000); // slot table has one entry: index 0 valid, 1 out of range
+    let e_off = any_off(0, 1 << 33);
+    let i = w.inst(e_off);
+    let op: u8 = kani::any();
+    let r = match op {
+        0 => w.t.del(FixedTimerKey { slot, gen_or_time: gen }),
+        1 => w.t.del_max(MaxTimerKey { slot, gnn: gen }),
+        2 => w.t.del_min(MinTimerKey { slot, gnn: gen }),
+        3 => w.t.mod_max(MaxTimerKey { slot, gnn: gen }, i),
+        4 => w.t.mod_min(MinTimerKey { slot, gnn: gen }, i),
+        5 => w.t.max_is_active(MaxTimerKey { slot, gnn: gen }),
+        6 => w.t.min_is_active(MinTimerKey { slot, gnn: gen }),
+        7 => w.t.del(FixedTimerKey::default()) || w.t.del_max(MaxTimerKey::default()) || w.t.del_min(MinTimerKey::default())
+            || w.t.mod_max(MaxTimerKey::default(), i) || w.t.mod_min(MinTimerKey::default(), i)
+            || w.t.max_is_active(MaxTimerKey::default()) || w.t.min_is_active(MinTimerKey::default()),
+        _ => false,
+    };
+    // A Max key on a Min timer of the same slot and generation (or vice versa) cannot be produced by the API:
+    // keys are typed and generations are never shared between two timers (a_slot_generation_step).
+    let cross_kind = slot == 0 && gen == g.gnn && kind != Kind::Fixed;
+    if !cross_kind {
+        assert!(!r, "C10: a key that names no pending timer answered true");
+    }
+    let g2 = read_back(&w, kind, g.e, g.s1);
+    assert!(g2.is_some() && queue_len(&w) == 1, "C10: stale key removed another timer");
+    let g2 = g2.unwrap();
+    if !cross_kind {
+        assert!(g2.c == g.c && g2.slot == g.slot && g2.gnn == g.gnn && w.t.now.0 == n, "C10: stale key modified another timer");
+    }
+    kani::cover!((op == 1 && slot == 0) || kind != Kind::Max, "stale generation on the live slot");
+    kani::cover!((op == 0 && slot >= 0x8000_0000) || kind != Kind::Fixed, "stale fixed key");
+    kani::cover!(op == 7, "default keys");
+    std::mem::forget(w);
+}
+
+macro_rules! ind_harness {
+    ($name:ident, $body:expr) => {
+        #[kani::proof]
+        #[kani::unwind(5)]
+        #[kani::stub(crate::queue::FnOnceQueue::push_box, push_box_now)]
+        fn $name() {
+            $body;
+        }
+    };
+}
+
+// ---- base cases
+// @verif prop=C07,C08,C09,C10,C19 tier=quick timeout=600 mem=10 unwind=5 unwindset=::add\.0$:2,::add\.1$:1
+// @enc Timers::add Timers::add_max Timers::alloc_slot Timers::next_expiry Time::new_ceil Time::instant WrapTime::time TimerKey::cmp
+// @sym current tick N: any valid tick < 2^49; sequence counter any u32; expiry any instant t0+(0..2^33 s, any ns) (past, future, beyond 32767 s)
+// @bound one add into an empty timer set (inductive base); map model capacity 2
+// @assume BTreeMap modelled by harness/model/vmap.rs; state constructed at tick N
+ind_harness!(i_base_add_fixed, ind_base_add(Kind::Fixed));
+// @verif prop=C07,C08,C09,C10 tier=quick timeout=600 mem=10 unwind=5
+// @enc Timers::add_max Timers::alloc_slot Timers::next_expiry Time::new_ceil
+// @sym as i_base_add_fixed
+// @bound one add_max into an empty timer set (inductive base)
+// @assume BTreeMap modelled by harness/model/vmap.rs; state constructed at tick N
+ind_harness!(i_base_add_max, ind_base_add(Kind::Max));
+// @verif prop=C07,C08,C09,C10 tier=quick timeout=600 mem=10 unwind=5
+// @enc Timers::add_min rounded_75point Timers::alloc_slot Timers::next_expiry Time::new_ceil
+// @sym as i_base_add_fixed
+// @bound one add_min into an empty timer set (inductive base)
+// @assume BTreeMap modelled by harness/model/vmap.rs; state constructed at tick N
+ind_harness!(i_base_add_min, ind_base_add(Kind::Min));
+
+// ---- advance steps (quick: jumps up to 70000 s = three 0x7FFF s internal steps)
+// @verif prop=C07,C08,C09,C10,C19 tier=quick timeout=1500 mem=14 unwind=5 unwindset=::advance\.1$:5,::advance\.0$:3
+// @enc Timers::advance Timers::next_expiry Time::new_floor Time::add_secs WrapTime::cmp TimerKey::cmp (queue sink stubbed)
+// @sym any pre-state satisfying INV(fixed): tick N < 2^50, entry tick C in (N, N+0x7FFF s), E, S1, slot id any >= 2^31; target any instant up to 70000 s ahead of N (or earlier)
+// @bound one advance of <= 70000 s (<= 3 internal 0x7FFF s steps + exit) from an arbitrary INV state: inductive step, histories of any length
+// @stub FnOnceQueue::push_box -> callback invoked at once (queue is a sink here; FIFO is C01/C17)
+// @assume BTreeMap modelled by harness/model/vmap.rs (total-order precondition asserted); single pending timer
+ind_harness!(i_adv_fixed, ind_advance(Kind::Fixed, 70000));
+// @verif prop=C07,C08,C09,C10 tier=quick timeout=1500 mem=14 unwind=5 unwindset=::advance\.1$:5,::advance\.0$:3
+// @enc Timers::advance (Max branch) Timers::free_slot Timers::next_expiry
+// @sym any pre-state satisfying INV(max): N, C in (N, N+0x7FFF s], E any (also > 18 h ahead), S1, generation any != 0; target up to 70000 s ahead
+// @bound one advance of <= 70000 s from an arbitrary INV state (inductive step)
+// @stub FnOnceQueue::push_box -> callback invoked at once
+// @assume BTreeMap modelled by harness/model/vmap.rs; single pending timer
+ind_harness!(i_adv_max, ind_advance(Kind::Max, 70000));
+// @verif prop=C07,C08,C09,C10 tier=quick timeout=1500 mem=14 unwind=5 unwindset=::advance\.1$:5,::advance\.0$:3
+// @enc Timers::advance (Min branch) rounded_75point Timers::free_slot Timers::next_expiry
+// @sym any pre-state satisfying INV(min); target up to 70000 s ahead
+// @bound one advance of <= 70000 s from an arbitrary INV state (inductive step)
+// @stub FnOnceQueue::push_box -> callback invoked at once
+// @assume BTreeMap modelled by harness/model/vmap.rs; single pending timer
+ind_harness!(i_adv_min, ind_advance(Kind::Min, 70000));
+
+// ---- update / delete / stale-key steps
+// @verif prop=C07,C08,C09,C10 tier=quick timeout=600 mem=10 unwind=5
+// @enc Timers::mod_max
+// @sym any INV(max) pre-state; new expiry any instant t0+(0..2^33 s)
+// @bound one update from an arbitrary INV state (inductive step)
+// @assume BTreeMap modelled by harness/model/vmap.rs
+ind_harness!(i_upd_max, ind_update(Kind::Max));
+// @verif prop=C07,C08,C09,C10 tier=quick timeout=600 mem=10 unwind=5
+// @enc Timers::mod_min rounded_75point
+// @sym any INV(min) pre-state; new expiry any instant t0+(0..2^33 s) (before, at and after the current time)
+// @bound one update from an arbitrary INV state (inductive step)
+// @assume BTreeMap modelled by harness/model/vmap.rs
+ind_harness!(i_upd_min, ind_update(Kind::Min));
+// @verif prop=C09,C10 tier=quick timeout=600 mem=10 unwind=5
+// @enc Timers::del Timers::free_slot
+// @sym any INV(fixed) pre-state
+// @bound one delete (inductive step)
+// @assume BTreeMap modelled by harness/model/vmap.rs
+ind_harness!(i_del_fixed, ind_delete(Kind::Fixed));
+// @verif prop=C09,C10 tier=quick timeout=600 mem=10 unwind=5
+// @enc Timers::del_max Timers::del Timers::free_slot Timers::mod_max Timers::max_is_active
+// @sym any INV(max) pre-state; deleted through the Max key or the long-fixed key
+// @bound one delete (inductive step)
+// @assume BTreeMap modelled by harness/model/vmap.rs
+ind_harness!(i_del_max, ind_delete(Kind::Max));
+// @verif prop=C09,C10 tier=quick timeout=600 mem=10 unwind=5
+// @enc Timers::del_min Timers::free_slot Timers::mod_min Timers::min_is_active
+// @sym any INV(min) pre-state
+// @bound one delete (inductive step)
+// @assume BTreeMap modelled by harness/model/vmap.rs
+ind_harness!(i_del_min, ind_delete(Kind::Min));
+// @verif prop=C10 tier=quick timeout=600 mem=10 unwind=5
+// @enc Timers::del Timers::del_max Timers::del_min Timers::mod_max Timers::mod_min Timers::max_is_active Timers::min_is_active
+// @sym any INV(fixed) pre-state; any key (slot, generation/time) that does not name the pending timer, and the Default keys; any of the 7 key operations
+// @bound one operation (inductive step)
+// @assume BTreeMap modelled by harness/model/vmap.rs
+ind_harness!(i_stale_fixed, ind_stale_key(Kind::Fixed));
+// @verif prop=C10 tier=quick timeout=600 mem=10 unwind=5
+// @enc as i_stale_fixed
+// @sym any INV(max) pre-state; any non-naming key; any key operation
+// @bound one operation (inductive step)
+// @assume BTreeMap modelled by harness/model/vmap.rs
+ind_harness!(i_stale_max, ind_stale_key(Kind::Max));
+// @verif prop=C10 tier=quick timeout=600 mem=10 unwind=5
+// @enc as i_stale_fixed
+// @sym any INV(min) pre-state; any non-naming key; any key operation
+// @bound one operation (inductive step)
+// @assume BTreeMap modelled by harness/model/vmap.rs
+ind_harness!(i_stale_min, ind_stale_key(Kind::Min));
+
+
+// step: a fixed-timer key that was issued earlier is never issued again (so a stale key cannot name a later timer):
+// add A, remove it (delete; firing removes it from the queue the same way), add B at any instant
+fn ind_fixed_key_fresh() {
+    let n: u64 = kani::any();
+    kani::assume(valid_floor(n) && n < (1 << 49));
+    let mut w = World::new();
+    w.t.now = Time(n);
+    w.t.seq = kani::any();
+    w.t.var = Vec::with_capacity(2);
+    let ea = any_off(0, 1 << 33);
+    let eb = any_off(0, 1 << 33);
+    // both short (long fixed timers use generation-checked Max slots: i_del_max / i_stale_max)
+    kani::assume(tick_of_ceil(&w, ea) < n + LONG && tick_of_ceil(&w, eb) < n + LONG);
+    let ka = w.t.add(w.inst(ea), cb(0));
+    assert!(ka.slot >= 0x8000_0000);
+    assert!(w.t.del(ka), "C10: delete of a pending fixed timer");
+    let kb = w.t.add(w.inst(eb), cb(1));
+    assert!(ka != kb, "C10: a fixed-timer key was issued twice");
+    assert!(!w.t.del(ka), "C10: stale fixed key deleted a later timer");
+    assert!(queue_len(&w) == 1, "C10: stale key removed another timer");
+    assert!(w.t.del(kb) && queue_len(&w) == 0);
+    assert!(!w.t.del(kb) && !w.t.del(ka) && !w.t.del(FixedTimerKey::default()));
+    kani::cover!(tick_of_ceil(&w, ea) == tick_of_ceil(&w, eb), "same tick re-armed");
+    kani::cover!(w.t.seq < 5, "sequence counter wrapped");
+    std::mem::forget(w);
+}
+// @verif prop=C10 tier=quick timeout=600 mem=10 unwind=5 unwindset=::add\.0$:2,::add\.1$:1
+// @enc Timers::add Timers::del
+// @sym tick N any; sequence counter any u32 (including the wrap); two expiry instants any (same tick or not), both < 32767 s ahead
+// @bound add, delete, add, stale delete (inductive in the sequence counter)
+// @assume BTreeMap modelled by harness/model/vmap.rs
+ind_harness!(i_fixed_key_fresh, ind_fixed_key_fresh());
+
+// ------------------------------------------------------------------------------------------
+// Layer C: two fixed timers pending together (C19 order, mutual non-interference), inductive step
+// INV2: INV for each; A was created before B: slotA < slotB (sequence numbers, no 2^31 wrap in between),
+//       S1A <= S1B, and A was still pending when B was created: cA >= S1B.
+// ------------------------------------------------------------------------------------------
+
+fn two_fixed(clamped_class: bool, max_ahead_secs: u64) {
+    let n: u64 = kani::any();
+    let a = Ghost { kind: Kind::Fixed, e: kani::any(), s1: kani::any(), c: kani::any(), slot: kani::any(), gnn: 0 };
+    let b = Ghost { kind: Kind::Fixed, e: kani::any(), s1: kani::any(), c: kani::any(), slot: kani::any(), gnn: 0 };
+    kani::assume(inv_numbers(n, &a) && inv_numbers(n, &b));
+    kani::assume(a.slot < b.slot && a.s1 <= b.s1 && a.c >= b.s1);
+    kani::assume(n < (1 << 50) - (0x30000 << 16));
+    // the class of finding F2: the timer with the earlier deadline had that deadline clamped at creation
+    let earlier_clamped = (a.e < b.e && a.c > a.e) || (b.e < a.e && b.c > b.e);
+    kani::assume(earlier_clamped == clamped_class);
+    let mut w = World::new();
+    w.t.now = Time(n);
+    w.t.seq = b.slot & 0x7FFF_FFFF;
+    std::mem::forget(w.t.queue.insert(TimerKey::new(Time(a.c).wt(), a.slot), cb(0)));
+    std::mem::forget(w.t.queue.insert(TimerKey::new(Time(b.c).wt(), b.slot), cb(1)));
+    let x = any_target(n, max_ahead_secs);
+    let nf = tick_of_floor(&w, x);
+    let n2 = if nf > n { nf } else { n };
+    w.c.in_run = true;
+    w.t.advance(w.inst(x), &mut w.q);
+    w.q.execute(&mut w.c);
+    w.c.in_run = false;
+    let (fa, fb) = (w.c.cnt[0], w.c.cnt[1]);
+    assert!(fa <= 1 && fb <= 1, "C08: fired more than once");
+    // each timer behaves as if alone
+    assert!((fa == 1) == (n2 >= a.c), "C07/C08: timer A fired early / not fired on time next to another timer");
+    assert!((fb == 1) == (n2 >= b.c), "C07/C08: timer B fired early / not fired on time next to another timer");
+    assert!(queue_len(&w) == 2 - (fa as usize) - (fb as usize), "C08: queue does not hold exactly the pending timers");
+    if fa == 1 && fb == 1 {
+        let a_first = w.c.order[0] == 0 && w.c.order[1] == 1;
+        let b_first = w.c.order[0] == 1 && w.c.order[1] == 0;
+        assert!(a_first || b_first);
+        // C19: deadline order (ceil ticks of deadlines >= 2 steps apart are strictly ordered: lemma a_time_monotone)
+        if a.e < b.e {
+            assert!(a_first, "C19: fixed timers fired out of deadline order");
+        }
+        if b.e < a.e {
+            assert!(b_first, "C19: fixed timers fired out of deadline order");
+        }
+        // identical instant given at the same time: creation order
+        if a.e == b.e && a.s1 == b.s1 {
+            assert!(a_first, "C19: same-instant fixed timers fired out of creation order");
+        }
+    }
+    if fa == 0 && fb == 0 {
+        let first = w.t.queue.iter().next().map(|(k, _)| k.time.time(w.t.now).0);
+        assert!(first == Some(if a.c < b.c { a.c } else { b.c }), "C09: next_expiry is not the earliest pending entry");
+    }
+    kani::cover!(fa == 1 && fb == 1 && a.e < b.e, "both fired, A's deadline first");
+    kani::cover!(fa == 1 && fb == 1 && b.e < a.e, "both fired, B's deadline first");
+    kani::cover!(fa == 1 && fb == 1 && a.e == b.e && a.s1 == b.s1, "both fired, identical instant");
+    kani::cover!(fa + fb == 1, "only one fired");
+    kani::cover!(fa == 1 && fb == 1 && n2 - n > LONG, "both fired in a multi-step jump");
+    std::mem::forget(w);
+}
+
+// @verif prop=C19,C07,C08 tier=quick timeout=1500 mem=14 unwind=5 unwindset=::advance\.1$:5,::advance\.0$:4
+// @enc Timers::advance Timers::next_expiry TimerKey::cmp WrapTime::cmp (queue sink stubbed)
+// @sym any two fixed timers A (older) and B satisfying INV2: ticks N, cA, cB in (N, N+0x7FFF s), deadlines EA, EB, creation times, sequence ids; target up to 70000 s ahead
+// @bound one advance (<= 3 internal steps) from an arbitrary 2-timer INV2 state (inductive step); class: the earlier-deadline timer was NOT clamped at creation
+// @stub FnOnceQueue::push_box -> callback invoked at once (execution order = push order; queue FIFO is C01/C17)
+// @assume BTreeMap modelled by harness/model/vmap.rs (total-order precondition asserted); no 2^31 wrap of the sequence counter between the two creations
+ind_harness!(c_two_fixed_order, two_fixed(false, 70000));
+
+// The class recorded as finding F2 (known_findings.txt): the timer with the earlier deadline was given a deadline
+// at or before "now + 1 tick", which `add` clamps; deadline order is then lost.  Fails on the pinned tree by design.
+// @verif prop=C19 tier=quick timeout=1500 mem=14 unwind=5 unwindset=::advance\.1$:5,::advance\.0$:4
+// @enc Timers::advance TimerKey::cmp
+// @sym as c_two_fixed_order, restricted to the class where the earlier-deadline timer WAS clamped at creation
+// @bound as c_two_fixed_order
+// @stub FnOnceQueue::push_box -> callback invoked at once
+// @assume BTreeMap modelled by harness/model/vmap.rs
+ind_harness!(c_two_fixed_order_clamped, two_fixed(true, 70000));
 
 #[cfg(uazu_replay_timers)]
 include!(env!("UAZU_STAKKER_REPLAY_FILE"));
